@@ -1354,3 +1354,53 @@ def rx_attribute_resolution_is_per_object(ctx, rule):
         raise AnalysisError("%s: rx.__getattribute__ no longer lists the attributes of the current object with dir(): the anchor of this rule vanished" % rule)
     else:
         ctx.ok(rule, g, g.node, "rx.__getattribute__ lists the attributes of the current object on every access (dir); no module-level mutable state is consulted (%d module-level containers in reactive.py)" % len(mutable_globals))
+
+
+def no_shared_mutable_class_state(ctx, rule):
+    """Per-object state is per object: no class body in param / numbergen binds a mutable container (list / dict / set) to an
+    attribute that a method of the class mutates in place through self (self.<name>.append / pop / ...), unless the class's
+    own __init__ rebinds it for every new object.  (Time._pushed_state declared at class level would make all clocks
+    share one context stack: leaving one clock's context restores another clock's time.)"""
+    MUT = ("append", "pop", "extend", "update", "add", "clear", "insert", "remove", "setdefault", "popitem", "discard")
+    n = 0
+    for cq, cobj in sorted(ctx.repo.classes.items()):
+        node = getattr(cobj, "node", None)
+        if node is None:
+            continue
+        n += 1
+        mut = {}
+        for st in node.body:
+            if isinstance(st, ast.Assign) and (isinstance(st.value, (ast.List, ast.Dict, ast.Set)) or (
+                    isinstance(st.value, ast.Call) and norm(st.value.func) in ("list", "dict", "set", "defaultdict", "OrderedDict", "collections.defaultdict", "collections.OrderedDict"))):
+                for tg in st.targets:
+                    if isinstance(tg, ast.Name) and not (tg.id.startswith("__") and tg.id.endswith("__")):
+                        mut[tg.id] = st
+        if not mut:
+            continue
+        rebinds = set()
+        for g in cobj.methods.get("__init__", []):
+            me = g.params[0] if g.params else "self"
+            for st in ast.walk(g.node):
+                if isinstance(st, ast.Assign):
+                    rebinds |= {t.attr for t in st.targets if isinstance(t, ast.Attribute) and isinstance(t.value, ast.Name) and t.value.id == me}
+        for fs in cobj.methods.values():
+            for g in fs:
+                me = g.params[0] if g.params else None
+                for c in ast.walk(g.node):
+                    hit = None
+                    if isinstance(c, ast.Call) and isinstance(c.func, ast.Attribute) and c.func.attr in MUT and isinstance(c.func.value, ast.Attribute) \
+                            and isinstance(c.func.value.value, ast.Name) and c.func.value.value.id == me and c.func.value.attr in mut:
+                        hit = c.func.value.attr
+                    if isinstance(c, (ast.Assign, ast.AugAssign, ast.Delete)):
+                        tgs = c.targets if isinstance(c, (ast.Assign, ast.Delete)) else [c.target]
+                        for t in tgs:
+                            if isinstance(t, ast.Subscript) and isinstance(t.value, ast.Attribute) and isinstance(t.value.value, ast.Name) and t.value.value.id == me and t.value.attr in mut:
+                                hit = t.value.attr
+                    if hit and hit not in rebinds:
+                        ctx.fail(rule, g, c, "%s.%s mutates `self.%s` in place (`%s`), but `%s` is a mutable container bound in the class body and %s.__init__ does not rebind it: every "
+                                             "object of the class shares that one container -- state pushed by one object is popped by another" % (
+                                                 cq.rsplit(".", 1)[-1], g.name, hit, norm(c)[:60], hit, cq.rsplit(".", 1)[-1]), key="%s::shared-mutable-class-state::%s" % (cq, hit))
+                        return
+    ctx.require(n >= 40, "fewer than 40 classes examined (%d)" % n)
+    pf = ctx.repo.func("param.parameters.Time.__init__")
+    ctx.ok(rule, pf, None, "no class binds a mutable container at class level that its methods mutate through self (%d classes)" % n)
